@@ -470,7 +470,12 @@ def scen_file(ctx, mode, nsteps, out, perms=False, script=()):
                 ctx.count('file:temp-name-collision-forced(stale %s)' % pre[tp][0])
             env.rnd.used = []
             tile = Tile(coord, ImageSource(io.BytesIO(data)))
+            # fault: one raw write(2) of this store is a short write (the caller must write the rest)
+            env.tr.short_write = rng.random() < 0.3
+            if env.tr.short_write:
+                ctx.count('file:short-write-fault-armed')
             raw, exc = env.traced(lambda: cache.store_tile(tile))
+            env.tr.short_write = False
             env.rnd.force = None
             new = read_file_cache(cdir, mode, coords)
             linked = bool(mode) and sc is not None
@@ -680,7 +685,11 @@ def scen_atomic(ctx, kind, nsteps, out, perms=False, umask0=False):
                 env.rnd.force = int(stale[0][len(rel + TMP_TAG):])
             env.rnd.used = []
             env.modes.clear()
+            env.tr.short_write = rng.random() < 0.3
+            if env.tr.short_write:
+                ctx.count('atomic:short-write-fault-armed')
             raw, exc = env.traced(fn)
+            env.tr.short_write = False
             env.rnd.force = None
             new = reader(cdir)
             ww = sorted(q for q, m in env.modes.items() if m & 0o002)
@@ -838,7 +847,8 @@ Definition v2_check (c : ''' + V2_CASE_TYPE + ''') : bool :=
   let m := v2_store_ops f0 b in
   let fm := bw_apply_all f0 m in
   let fr := bw_apply_all f0 ops in
-  v2_raw_ok b L0 f0 ops && v2_raw_ok b L0 f0 m &&
+  (* raw_ok of the model's own writes is a theorem (bundle_v2_writer_obeys_discipline): not re-evaluated here *)
+  v2_raw_ok b L0 f0 ops &&
   forallb (fun w => forallb (fun x => 0 <=? x) (snd w)) ops &&
   forallb (v2_slot_ok f0) slots &&
   list_eqb bw_eqb (no_hdr (bw_merge m)) (no_hdr (bw_merge ops)) &&
@@ -877,7 +887,8 @@ Definition v1_check (c : ''' + V1_CASE_TYPE + ''') : bool :=
   let m := v1_store_ops s0 b in
   let sm := v1_apply_all s0 m in
   let sr := v1_apply_all s0 ops in
-  v1_raw_ok b L0 s0 ops && v1_raw_ok b L0 s0 m &&
+  (* raw_ok of the model's own writes is a theorem (bundle_v1_writer_obeys_discipline): not re-evaluated here *)
+  v1_raw_ok b L0 s0 ops &&
   forallb (fun o => match o with WD _ d => forallb (fun x => 0 <=? x) d | WI _ d => forallb (fun x => 0 <=? x) d end) ops &&
   forallb (v1_slot_ok s0) slots &&
   list_eqb bw_eqb (bw_merge (dat_writes m)) (bw_merge (dat_writes ops)) &&
@@ -1165,6 +1176,10 @@ def scen_compact(ctx, version, nsteps, out, big=False, perms=False):
                 # of handing Coq a literal of that size
                 ctx.problem('correspondence', '%s: in-place raw writes of %d bytes (this store and its history) on existing '
                             'bundle files' % (tag, volume), rep)
+            elif big and ctx.quick:
+                # the model's readers are quadratic in the record length: the history with the tile that is larger than the
+                # Python buffer is compared with the model in the thorough tier; the oracle above covers it in both tiers
+                ctx.count('%s:large-tile-history(oracle only in the quick tier)' % tag)
             elif single_bundle and exc is None and bundle_ops:
                 out[tag + '_terms'].append(coq_term(hist, batch, bundle_ops, [slot_of(version, c) for c in coords[:ncoq]],
                                                     obs, bx, by))
@@ -1294,7 +1309,10 @@ def run(ctx):
             if mode and rep == 0:
                 # directed: colour tile at A; same colour at B, killed between link-under-temp-name and rename;
                 # restart, regular tile at B with the same temp name (same random number / same pid)
-                script = ((0, 'c0', None), (1, 'c0', 'after-link-tmp'), (1, 'rand', None))
+                # ... and finally a regular tile over an address that is a link while another address links to the same
+                # colour file (the shared file must not be written through)
+                script = ((0, 'c0', None), (2, 'c0', None), (1, 'c0', 'after-link-tmp'), (1, 'rand', None),
+                          (0, 'rand', None))
             guarded('file/%s/%d' % (mode, rep), scen_file, ctx, mode, ctx.n(9, 14), out, perms=(rep % 2 == 1), script=script)
     mark('file-scenarios')
     for kind in ('legend', 'progress'):
@@ -1304,7 +1322,8 @@ def run(ctx):
     mark('atomic-scenarios')
     for version in (2, 1):
         for rep in range(ctx.n(3, 12)):
-            guarded('compact-v%d/%d' % (version, rep), scen_compact, ctx, version, ctx.n(5, 7), out,
+            guarded('compact-v%d/%d' % (version, rep), scen_compact, ctx, version,
+                    3 if (q and rep == 0 and version == 2) else ctx.n(5, 7), out,
                     big=(rep == 0 and (version == 2 or not q)), perms=(rep % 2 == 1))
         mark('compact-v%d-scenarios' % version)
     ctx.corr_check('file_store', 'Bytes Crash', FILE_CASE_TYPE, out['file_terms'], FILE_CHECKER,
@@ -1317,10 +1336,10 @@ def run(ctx):
                    lambda i: out['dir_descr'][i], shard=40, defs=DIR_DEFS)
     mark('coq-file-atomic-init')
     ctx.corr_check('bundle_v2', 'Bytes Crash', V2_CASE_TYPE, out['v2_terms'], 'v2_check',
-                   lambda i: out['v2_descr'][i], shard=1, defs=V2_DEFS)
+                   lambda i: out['v2_descr'][i], shard=2, defs=V2_DEFS)
     mark('coq-v2')
     ctx.corr_check('bundle_v1', 'Bytes Crash', V1_CASE_TYPE, out['v1_terms'], 'v1_check',
-                   lambda i: out['v1_descr'][i], shard=1, defs=V1_DEFS)
+                   lambda i: out['v1_descr'][i], shard=2, defs=V1_DEFS)
     mark('coq-v1')
     ctx.notes.append('cumulative wall time after each phase: ' + ', '.join(marks))
     if os.environ.get('VERIF_VERBOSE'):
